@@ -295,5 +295,5 @@ func hookMachine(fd *ast.FuncDecl) int {
 		Fun: &ast.SelectorExpr{X: ast.NewIdent("verifhook"), Sel: ast.NewIdent("Exit")},
 	}}
 	fd.Body.List = append([]ast.Stmt{enter, exit}, fd.Body.List...)
-	return nStates
+	return nStates + 1 // + the start state, which meets end of input only on empty input
 }
